@@ -40,6 +40,12 @@ func (r *ReferenceStorage) CheckAndSetReference(ref, old *plumbing.Reference) er
 		return r.SetReference(ref)
 	}
 
+	// A reference removed in this transaction is gone, whatever the base
+	// still holds.
+	if _, deleted := r.deleted[old.Name()]; deleted {
+		return plumbing.ErrReferenceNotFound
+	}
+
 	tmp, err := r.temporal.Reference(old.Name())
 	if err == plumbing.ErrReferenceNotFound {
 		tmp, err = r.ReferenceStorer.Reference(old.Name())
